@@ -100,21 +100,9 @@ theorem run_closeAll (l : List Fd) : (Sys.closeAll l).run w = () := rfl
 
 theorem run_releaseMany (a b : List Fd) : (Opath.releaseMany a b).run w = () := rfl
 
-/-! ## diagnostics never fail on a world -/
+/-! ## building an error value always completes, with the error it was built for -/
 
 theorem run_gettid : Sys.gettid.run w = 1 := rfl
-
-theorem run_freeze (fuel : Nat) (fd : Fd) : (Sys.freeze (fuel + 1) fd).run w = true := by
-  rw [Sys.freeze.eq_2, run_bind, run_gettid, run_bind]
-  have hp : (Sys.freeze.probe fuel (Sys.threadSelfCandidates 1)).run w = some (some b!"thread-self") := by
-    unfold Sys.threadSelfCandidates
-    rw [Sys.freeze.probe.eq_2]
-    simp [World.answer, AT_FDCWD]
-  rw [hp]
-  dsimp only
-  split
-  · rfl
-  · rfl
 
 theorem run_failWith {α : Type} (fds : List Fd) (e : Nat) :
     Prog.run w (Sys.failWith (α := α) fds e) = .error (.os e) := by
@@ -124,9 +112,7 @@ theorem run_failWith {α : Type} (fds : List Fd) (e : Nat) :
   | cons fd rest ih =>
     unfold Sys.failWith.go
     rw [run_bind]
-    have : (Sys.freeze Sys.diagFuel fd).run w = true := run_freeze w 2 fd
-    rw [this]
-    simpa using ih
+    exact ih
 
 theorem hotfix_tree {fd : Fd} (h : 0 ≤ fd) : Sys.hotfix fd = .ok () := by
   unfold Sys.hotfix
@@ -260,15 +246,14 @@ theorem run_isOk {α : Type} (p : M α) : Prog.run w (M.isOk p) = match Prog.run
   | ok a => rfl
   | error e => by_cases hf : e.isFatal = true <;> simp [hf]
 
-theorem run_fstatat_ts :
-    Prog.run w (Sys.fstatat procRoot b!"thread-self") = .ok { mode := S_IFLNK ||| 0o777, uid := 0, ino := 3 } := by
-  unfold Sys.fstatat
+theorem run_existsAt_ts : (Sys.existsAt procRoot b!"thread-self").run w = true := by
+  unfold Sys.existsAt
   have h0 : Sys.hotfix procRoot = .ok () := hotfix_tree (by decide)
   simp [h0, World.answer, AT_FDCWD]
 
 theorem run_intoPath_ts : Prog.run w (Procfs.intoPath .threadSelf procRoot) = .ok b!"thread-self" := by
   unfold Procfs.intoPath
-  simp [Sys.threadSelfCandidates, Procfs.intoPath.probe, run_isOk, run_fstatat_ts]
+  simp [Sys.threadSelfCandidates, Procfs.intoPath.probe, run_existsAt_ts]
 
 theorem run_openat2_proc (fl rs : Nat) :
     Prog.run w (Sys.openat2 procRoot b!"thread-self" fl rs) = .ok threadSelf := by
